@@ -53,6 +53,63 @@ theorem prefix_lookalike_rejected (pre root : String) (hne : pre.toList ≠ [])
     exact prefix_lookalike_not_suffix _ _ hlast h
   rw [h1, h2]; rfl
 
+/-- **Accepted hosts, characterised for all strings**: the root-domain test accepts a host
+exactly when the host is the root preceded by nothing, or by labels that end in a dot.  Every
+look-alike family is an instance of the right-to-left failure: a host that goes on after the
+service name (`youtube.com.evil.example`), one that glues something in front of it
+(`notyoutube.com`), one that only contains it. -/
+theorem accepted_host_iff (host root : String) :
+    rootMatchSpec host root = true ↔
+      ∃ sub : List Char, host.toList = sub ++ root.toList ∧ (sub = [] ∨ sub.getLast? = some '.') := by
+  unfold rootMatchSpec strHasSuffix
+  rw [Bool.or_eq_true, beq_iff_eq, List.isSuffixOf_iff_suffix]
+  simp only [String.toList_append]
+  constructor
+  · rintro (h | ⟨t, ht⟩)
+    · exact ⟨[], by simp [h], Or.inl rfl⟩
+    · refine ⟨t ++ ['.'], ?_, Or.inr (by simp)⟩
+      rw [← ht]
+      show t ++ (['.'] ++ root.toList) = (t ++ ['.']) ++ root.toList
+      simp
+  · rintro ⟨sub, hs, hsub⟩
+    rcases hsub with h0 | hl
+    · left
+      subst h0
+      exact String.toList_inj.mp (by simpa using hs)
+    · right
+      have hne : sub ≠ [] := by intro h; simp [h] at hl
+      have hd : sub = sub.dropLast ++ ['.'] := by
+        have h1 := List.dropLast_concat_getLast hne
+        have h2 : sub.getLast hne = '.' := by
+          have := List.getLast?_eq_some_getLast hne
+          rw [hl] at this
+          exact (Option.some.inj this).symm
+        rw [h2] at h1
+        exact h1.symm
+      refine ⟨sub.dropLast, ?_⟩
+      rw [hs]
+      conv => rhs; rw [hd]
+      show sub.dropLast ++ (['.'] ++ root.toList) = (sub.dropLast ++ ['.']) ++ root.toList
+      simp
+
+/-- in particular an accepted host *ends* with the service name: a host that continues after it
+(`youtube.com.evil.example`) is rejected, whatever the rest is -/
+theorem accepted_host_ends_with_root (host root : String)
+    (h : rootMatchSpec host root = true) : root.toList <:+ host.toList := by
+  obtain ⟨sub, hs, _⟩ := (accepted_host_iff host root).mp h
+  exact ⟨sub, hs.symm⟩
+
+theorem suffix_lookalike_rejected (host root : String)
+    (h : ¬ root.toList <:+ host.toList) : rootMatchSpec host root = false := by
+  rw [Bool.eq_false_iff]
+  intro ht
+  exact h (accepted_host_ends_with_root host root ht)
+
+example : ¬ "youtube.com".toList <:+ "youtube.com.evil.example".toList := by decide
+example : rootMatchSpec "www.youtube.com" "youtube.com" = true := by decide   -- the accepting side is inhabited
+example : rootMatchSpec "youtube.com.evil.example" "youtube.com" = false :=
+  suffix_lookalike_rejected _ _ (by decide)
+
 /-! concrete look-alikes and tricks, decided by the kernel on the generated expression -/
 section
 def hostAtoms (host root : String) : RootDomainAtoms :=
